@@ -113,7 +113,12 @@ type Server struct {
 	FuncLog   [][]byte // FUNCTION RESTORE payloads
 	ScriptLog [][]byte
 	// GenericWrites: business commands (first argument not a bookkeeping key) are logged and answered +OK without interpretation.
-	GenericWrites bool
+	GenericWrites  bool
+	LuaUnsupported int
+	// DropReplyOf: when set and it returns true for a request, the request is executed but the connection is closed instead of replying.
+	DropReplyOf func(conn int, cmd string, args [][]byte) bool
+	// RefuseOf: when set and it returns true, the connection is closed before the request is executed.
+	RefuseOf      func(conn int, cmd string, args [][]byte) bool
 	RestoreSeen   []RestoreCall
 	MaxRdbVersion uint16
 	CommandHook   func(args [][]byte) resp.Reply
@@ -297,7 +302,15 @@ func (s *Server) serve(cs *connState) {
 			s.mu.Unlock()
 			return
 		}
+		if s.RefuseOf != nil && s.RefuseOf(cs.id, name, args[1:]) {
+			s.mu.Unlock()
+			return
+		}
 		reply := s.handle(cs, name, args[1:])
+		if s.DropReplyOf != nil && s.DropReplyOf(cs.id, name, args[1:]) {
+			s.mu.Unlock()
+			return
+		}
 		crashNow := false
 		if s.crashAt > 0 && (s.CountPred == nil || s.CountPred(name, args[1:])) {
 			s.armed++
